@@ -1,39 +1,82 @@
 package main
 
 import (
+	"context"
+	"encoding/base64"
 	"fmt"
 	"sort"
 	"strconv"
 	"strings"
+	"sync"
+	"sync/atomic"
+	"time"
 
 	"google.golang.org/grpc/codes"
 	"google.golang.org/grpc/status"
 	"google.golang.org/protobuf/proto"
-	"google.golang.org/protobuf/types/known/wrapperspb"
+	"google.golang.org/protobuf/types/known/durationpb"
 
 	"github.com/smart-core-os/sc-golang/pkg/resource"
 )
 
-// Op is one call of a writer. Messages are wrapperspb.Int64Value (the empty message is 0).
+// P is a message: durationpb.Duration{Seconds: A, Nanos: B} (two fields, so that an update mask can select
+// one and leave the other). The empty message is 0.0. Written "a.b" everywhere (driver protocol, replays).
+type P struct{ A, B int64 }
+
+func (p P) String() string               { return strconv.FormatInt(p.A, 10) + "." + strconv.FormatInt(p.B, 10) }
+func (p P) MarshalText() ([]byte, error) { return []byte(p.String()), nil }
+func (p *P) UnmarshalText(b []byte) error {
+	parts := strings.Split(string(b), ".")
+	if len(parts) != 2 {
+		return fmt.Errorf("bad message %q", b)
+	}
+	var err error
+	if p.A, err = strconv.ParseInt(parts[0], 10, 64); err != nil {
+		return err
+	}
+	p.B, err = strconv.ParseInt(parts[1], 10, 64)
+	return err
+}
+func (p P) msg() *durationpb.Duration { return &durationpb.Duration{Seconds: p.A, Nanos: int32(p.B)} }
+
+// Op is one call of a writer.
 //
 //	K="u": Collection.Update(id, …)   K="v": Value.Set(…) (model id 9)   K="d": Collection.Delete(id, …)
 type Op struct {
 	K      string `json:"k"`
 	ID     int    `json:"id"`
+	Gen    bool   `json:"gen,omitempty"`    // empty id + WithGenIDIfAbsent (+ WithIDCallback)
 	EA     bool   `json:"ea,omitempty"`     // WithExpectAbsent
 	CIA    bool   `json:"cia,omitempty"`    // WithCreateIfAbsent
 	AM     bool   `json:"am,omitempty"`     // WithAllowMissing
-	Expect *int64 `json:"expect,omitempty"` // WithExpectedValue
-	Check  string `json:"check,omitempty"`  // "n" | "eq<k>" | "ne<k>": WithExpectedCheck failing with OutOfRange
-	F      string `json:"f,omitempty"`      // "s<k>" set to k | "a<k>" interceptBefore: new = old + k
+	Expect *P     `json:"expect,omitempty"` // WithExpectedValue (the whole message)
+	Check  string `json:"check,omitempty"`  // "n" | "eq<k>" | "ne<k>" on field a: WithExpectedCheck failing with OutOfRange
+	F      string `json:"f,omitempty"`      // "s<a>.<b>" write a.b | "a<k>" / "b<k>" interceptBefore: field += k
+	Mask   string `json:"mask,omitempty"`   // "" none | "a" | "b" | "ab": WithUpdatePaths(seconds / nanos)
+	WT     *int64 `json:"wt,omitempty"`     // WithWriteTime
+	// Rivals are complete calls made from inside this call's own callback, where no lock is held: the i-th
+	// invocation of the callback runs Rivals[i] first (an Update/Set invokes it once, a Delete once per attempt).
+	Rivals  []Op   `json:"rivals,omitempty"`
+	RivalAt string `json:"rival_at,omitempty"` // "c": the WithExpectedCheck callback | "b": the InterceptBefore callback
 }
 
 const valueID = 9
+const genBase = 100 // model ids of generated ids: genBase + 10*candidate + try
 
 type Scenario struct {
-	Init  map[string]int64 `json:"init"` // model id (decimal) -> value; absent = no record / nil Value
-	Progs [][]Op           `json:"progs"`
-	Sched []int            `json:"sched,omitempty"`
+	Init   map[string]P `json:"init"` // model id (decimal) -> value; absent = no record / nil Value
+	Progs  [][]Op       `json:"progs"`
+	Sched  []int        `json:"sched,omitempty"`
+	Clock  string       `json:"clock,omitempty"`  // "t" one instant per step (default) | "f" frozen | "c" coarse (step/3)
+	Cands  []int        `json:"cands,omitempty"`  // the n-th rng.Read yields candidate Cands[n % len] (empty: n)
+	Nested bool         `json:"nested,omitempty"` // no hooks: Progs[0][0] with its Rivals
+}
+
+func (sc Scenario) clock() string {
+	if sc.Clock == "" {
+		return "t"
+	}
+	return sc.Clock
 }
 
 func b01(b bool) string {
@@ -43,7 +86,14 @@ func b01(b bool) string {
 	return "0"
 }
 
-func optInt(p *int64) string {
+func optP(p *P) string {
+	if p == nil {
+		return "-"
+	}
+	return p.String()
+}
+
+func optI(p *int64) string {
 	if p == nil {
 		return "-"
 	}
@@ -57,21 +107,36 @@ func (o Op) check() string {
 	return o.Check
 }
 
+func (o Op) mask() string {
+	if o.Mask == "" {
+		return "-"
+	}
+	return o.Mask
+}
+
 func (o Op) encode() string {
 	switch o.K {
 	case "u":
-		return fmt.Sprintf("u/%d/C/%s/%s/%s/%s/%s", o.ID, b01(o.EA), b01(o.CIA), optInt(o.Expect), o.check(), o.F)
+		id := strconv.Itoa(o.ID)
+		if o.Gen {
+			id = "g"
+		}
+		return fmt.Sprintf("u/%s/C/%s/%s/%s/%s/%s/%s/%s", id, b01(o.EA), b01(o.CIA), optP(o.Expect), o.check(), o.F, o.mask(), optI(o.WT))
 	case "v":
-		return fmt.Sprintf("u/%d/V/0/0/%s/%s/%s", valueID, optInt(o.Expect), o.check(), o.F)
+		return fmt.Sprintf("u/%d/V/0/0/%s/%s/%s/%s/%s", valueID, optP(o.Expect), o.check(), o.F, o.mask(), optI(o.WT))
 	case "d":
-		return fmt.Sprintf("d/%d/%s/%s/%s", o.ID, b01(o.AM), optInt(o.Expect), o.check())
+		return fmt.Sprintf("d/%d/%s/%s/%s", o.ID, b01(o.AM), optP(o.Expect), o.check())
 	}
 	return "?"
 }
 
+// target is the id a call works on; a generate-id call has none before it ran (-1).
 func (o Op) target() int {
 	if o.K == "v" {
 		return valueID
+	}
+	if o.Gen {
+		return -1
 	}
 	return o.ID
 }
@@ -86,17 +151,28 @@ func (sc Scenario) initIDs() []int {
 	return ids
 }
 
-func (sc Scenario) driverLine(fixed bool, sched []int) string {
+func joinInts(xs []int) string {
+	var ss []string
+	for _, t := range xs {
+		ss = append(ss, strconv.Itoa(t))
+	}
+	if len(ss) == 0 {
+		return "-"
+	}
+	return strings.Join(ss, ",")
+}
+
+func driverLine(sc Scenario, progs [][]Op, sched []int) string {
 	var init []string
 	for _, id := range sc.initIDs() {
-		init = append(init, fmt.Sprintf("%d:%d", id, sc.Init[strconv.Itoa(id)]))
+		init = append(init, fmt.Sprintf("%d:%s", id, sc.Init[strconv.Itoa(id)]))
 	}
 	is := strings.Join(init, ",")
 	if is == "" {
 		is = "-"
 	}
-	var progs []string
-	for _, p := range sc.Progs {
+	var ps []string
+	for _, p := range progs {
 		var ops []string
 		for _, o := range p {
 			ops = append(ops, o.encode())
@@ -105,17 +181,82 @@ func (sc Scenario) driverLine(fixed bool, sched []int) string {
 		if s == "" {
 			s = "-"
 		}
-		progs = append(progs, s)
+		ps = append(ps, s)
 	}
-	var ss []string
-	for _, t := range sched {
-		ss = append(ss, strconv.Itoa(t))
+	return fmt.Sprintf("run 1 %s %s %s %s %s", sc.clock(), joinInts(sc.Cands), is, strings.Join(ps, "|"), joinInts(sched))
+}
+
+// ---------------------------------------------------------------------------------------------
+// injected clock and id generator
+
+// clock shows an instant derived from a counter: hooked runs set the counter to the number of the step
+// being executed (so every Now() of one step agrees with the model's clock at that step); free runs
+// (stress) advance it on every Now().
+type clock struct {
+	mode string
+	free bool
+	n    atomic.Int64
+}
+
+func (c *clock) Now() time.Time {
+	k := c.n.Load()
+	if c.free {
+		k = c.n.Add(1)
 	}
-	s := strings.Join(ss, ",")
-	if s == "" {
-		s = "-"
+	switch c.mode {
+	case "f":
+		k = 0
+	case "c":
+		k = k / 3
 	}
-	return fmt.Sprintf("run %s %s %s %s", b01(fixed), is, strings.Join(progs, "|"), s)
+	return time.Unix(k, 0)
+}
+
+// scriptRNG: the n-th Read yields the bytes [cand, 0, 0, ...] (as many as asked for: 6 + try).
+type scriptRNG struct {
+	mu     sync.Mutex
+	script []int
+	n      int
+}
+
+func (r *scriptRNG) Read(p []byte) (int, error) {
+	r.mu.Lock()
+	defer r.mu.Unlock()
+	v := r.n
+	if len(r.script) > 0 {
+		v = r.script[r.n%len(r.script)]
+	}
+	r.n++
+	for i := range p {
+		p[i] = 0
+	}
+	if len(p) > 0 {
+		p[0] = byte(v)
+	}
+	return len(p), nil
+}
+
+func idName(id int) string {
+	if id < genBase {
+		return "i" + strconv.Itoa(id)
+	}
+	v, try := (id-genBase)/10, (id-genBase)%10
+	b := make([]byte, 6+try)
+	b[0] = byte(v)
+	return base64.RawURLEncoding.EncodeToString(b)
+}
+
+func idOf(name string) int {
+	if strings.HasPrefix(name, "i") {
+		if n, err := strconv.Atoi(name[1:]); err == nil {
+			return n
+		}
+	}
+	b, err := base64.RawURLEncoding.DecodeString(name)
+	if err != nil || len(b) < 6 || len(b) > 15 {
+		return -2
+	}
+	return genBase + 10*int(b[0]) + len(b) - 6
 }
 
 // ---------------------------------------------------------------------------------------------
@@ -124,53 +265,68 @@ func (sc Scenario) driverLine(fixed bool, sched []int) string {
 type world struct {
 	coll *resource.Collection
 	val  *resource.Value
+	clk  *clock
+	rng  *scriptRNG
+
+	// calls made from inside callbacks, in the order they ran
+	mu     sync.Mutex
+	rivals []rivalRun
+	seq    atomic.Int64
 }
 
-func idName(id int) string { return "i" + strconv.Itoa(id) }
+type rivalRun struct {
+	op        Op
+	res       string
+	genID     int
+	inv, resp int64
+}
 
-func newWorld(sc Scenario) *world {
-	var copts []resource.Option
-	var vopts []resource.Option
+func newWorld(sc Scenario, free bool) *world {
+	w := &world{clk: &clock{mode: sc.clock(), free: free}, rng: &scriptRNG{script: sc.Cands}}
+	copts := []resource.Option{resource.WithClock(w.clk), resource.WithRNG(w.rng)}
+	vopts := []resource.Option{resource.WithClock(w.clk)}
 	for _, id := range sc.initIDs() {
 		v := sc.Init[strconv.Itoa(id)]
 		if id == valueID {
-			vopts = append(vopts, resource.WithInitialValue(wrapperspb.Int64(v)))
+			vopts = append(vopts, resource.WithInitialValue(v.msg()))
 		} else {
-			copts = append(copts, resource.WithInitialRecord(idName(id), wrapperspb.Int64(v)))
+			copts = append(copts, resource.WithInitialRecord(idName(id), v.msg()))
 		}
 	}
-	return &world{coll: resource.NewCollection(copts...), val: resource.NewValue(vopts...)}
+	w.coll = resource.NewCollection(copts...)
+	w.val = resource.NewValue(vopts...)
+	if free {
+		w.clk.n.Store(0)
+	}
+	return w
 }
 
-func msgVal(m proto.Message) (int64, bool) {
+func msgVal(m proto.Message) (P, bool) {
 	if m == nil {
-		return 0, false
+		return P{}, false
 	}
-	w, ok := m.(*wrapperspb.Int64Value)
+	w, ok := m.(*durationpb.Duration)
 	if !ok || w == nil {
-		return 0, false
+		return P{}, false
 	}
-	return w.GetValue(), true
+	return P{w.GetSeconds(), int64(w.GetNanos())}, true
 }
 
-func checkFn(spec string) func(proto.Message) error {
+func checkOK(spec string, v P, present bool) bool {
 	if spec == "" || spec == "n" {
-		return nil
+		return true
 	}
 	k, _ := strconv.ParseInt(spec[2:], 10, 64)
-	eq := strings.HasPrefix(spec, "eq")
-	return func(m proto.Message) error {
-		v, present := msgVal(m)
-		is := present && v == k
-		if is == eq {
-			return nil
-		}
-		return status.Error(codes.OutOfRange, "expected check failed")
-	}
+	is := present && v.A == k
+	return is == strings.HasPrefix(spec, "eq")
 }
 
-func (o Op) writeOpts() (proto.Message, []resource.WriteOption) {
+// writeOpts builds the options of one call; genID receives the generated id (model numbering).
+func (w *world) writeOpts(o Op, genID *int) (proto.Message, []resource.WriteOption) {
 	var opts []resource.WriteOption
+	if o.Gen {
+		opts = append(opts, resource.WithGenIDIfAbsent(), resource.WithIDCallback(func(id string) { *genID = idOf(id) }))
+	}
 	if o.EA {
 		opts = append(opts, resource.WithExpectAbsent())
 	}
@@ -181,23 +337,76 @@ func (o Op) writeOpts() (proto.Message, []resource.WriteOption) {
 		opts = append(opts, resource.WithAllowMissing(true))
 	}
 	if o.Expect != nil {
-		opts = append(opts, resource.WithExpectedValue(wrapperspb.Int64(*o.Expect)))
+		opts = append(opts, resource.WithExpectedValue(o.Expect.msg()))
 	}
-	if f := checkFn(o.Check); f != nil {
-		opts = append(opts, resource.WithExpectedCheck(f))
+	switch o.Mask {
+	case "a":
+		opts = append(opts, resource.WithUpdatePaths("seconds"))
+	case "b":
+		opts = append(opts, resource.WithUpdatePaths("nanos"))
+	case "ab":
+		opts = append(opts, resource.WithUpdatePaths("seconds", "nanos"))
+	}
+	if o.WT != nil {
+		opts = append(opts, resource.WithWriteTime(time.Unix(*o.WT, 0)))
+	}
+	calls := 0
+	rival := func() {
+		if calls < len(o.Rivals) {
+			r := o.Rivals[calls]
+			calls++
+			rr := rivalRun{op: r, genID: -1, inv: w.seq.Add(1)}
+			rr.res = w.exec(r, &rr.genID)
+			rr.resp = w.seq.Add(1)
+			w.mu.Lock()
+			w.rivals = append(w.rivals, rr)
+			w.mu.Unlock()
+		}
+	}
+	rivalInCheck := len(o.Rivals) > 0 && (o.K == "d" || o.RivalAt != "b")
+	rivalInBefore := len(o.Rivals) > 0 && !rivalInCheck
+	if o.check() != "n" || rivalInCheck {
+		spec := o.check()
+		opts = append(opts, resource.WithExpectedCheck(func(m proto.Message) error {
+			if rivalInCheck {
+				rival()
+			}
+			v, present := msgVal(m)
+			if checkOK(spec, v, present) {
+				return nil
+			}
+			return status.Error(codes.OutOfRange, "expected check failed")
+		}))
 	}
 	var msg proto.Message
 	if o.F != "" {
-		k, _ := strconv.ParseInt(o.F[1:], 10, 64)
 		switch o.F[0] {
 		case 's':
-			msg = wrapperspb.Int64(k)
-		case 'a':
-			m := wrapperspb.Int64(0)
-			msg = m
+			var p P
+			_ = p.UnmarshalText([]byte(o.F[1:]))
+			msg = p.msg()
+			if rivalInBefore {
+				opts = append(opts, resource.InterceptBefore(func(old, new proto.Message) { rival() }))
+			}
+		case 'a', 'b':
+			// the delta idiom documented on InterceptBefore and used by the library's own models: the written
+			// message carries the delta, the interceptor adds the old quantities to it
+			k, _ := strconv.ParseInt(o.F[1:], 10, 64)
+			d := &durationpb.Duration{}
+			if o.F[0] == 'a' {
+				d.Seconds = k
+			} else {
+				d.Nanos = int32(k)
+			}
+			msg = d
 			opts = append(opts, resource.InterceptBefore(func(old, new proto.Message) {
+				if rivalInBefore {
+					rival()
+				}
 				v, _ := msgVal(old)
-				new.(*wrapperspb.Int64Value).Value = v + k
+				change := new.(*durationpb.Duration)
+				change.Seconds += v.A
+				change.Nanos += int32(v.B)
 			}))
 		}
 	}
@@ -212,48 +421,87 @@ func canon(m proto.Message, err error) string {
 	if !ok {
 		return "ok:nil"
 	}
-	return "ok:" + strconv.FormatInt(v, 10)
+	return "ok:" + v.String()
 }
 
-func (w *world) exec(o Op) string {
+// exec runs one call; *genID is set to the id the collection generated for it (if any).
+func (w *world) exec(o Op, genID *int) string {
 	switch o.K {
 	case "u":
-		msg, opts := o.writeOpts()
-		return canon(w.coll.Update(idName(o.ID), msg, opts...))
+		msg, opts := w.writeOpts(o, genID)
+		id := idName(o.ID)
+		if o.Gen {
+			id = ""
+		}
+		res := canon(w.coll.Update(id, msg, opts...))
+		if o.Gen && strings.HasPrefix(res, "ok:") {
+			res += "#" + strconv.Itoa(*genID)
+		}
+		return res
 	case "v":
-		msg, opts := o.writeOpts()
+		msg, opts := w.writeOpts(o, genID)
 		return canon(w.val.Set(msg, opts...))
 	case "d":
-		_, opts := o.writeOpts()
+		_, opts := w.writeOpts(o, genID)
 		m, err := w.coll.Delete(idName(o.ID), opts...)
 		return canon(m, err)
 	}
 	return "?"
 }
 
-func (w *world) contents() map[int]int64 {
-	res := map[int]int64{}
-	for id := 0; id < valueID; id++ {
-		if m, ok := w.coll.Get(idName(id)); ok {
-			v, _ := msgVal(m)
-			res[id] = v
+// contents reads the final state: values and the change times stored with them (the seed events of a Pull).
+func (w *world) contents() (map[int]P, map[int]int64) {
+	vals, stamps := map[int]P{}, map[int]int64{}
+	if n := len(w.coll.List()); n > 0 {
+		ctx, cancel := context.WithCancel(context.Background())
+		ch := w.coll.Pull(ctx)
+		for i := 0; i < n; i++ {
+			select {
+			case ev := <-ch:
+				v, _ := msgVal(ev.NewValue)
+				vals[idOf(ev.Id)] = v
+				stamps[idOf(ev.Id)] = ev.ChangeTime.Unix()
+			case <-time.After(10 * time.Second):
+				panic("c02: no seed event from Collection.Pull")
+			}
 		}
+		cancel()
 	}
 	if v, ok := msgVal(w.val.Get()); ok {
-		res[valueID] = v
+		vals[valueID] = v
+		ctx, cancel := context.WithCancel(context.Background())
+		select {
+		case ev := <-w.val.Pull(ctx):
+			stamps[valueID] = ev.ChangeTime.Unix()
+		case <-time.After(10 * time.Second):
+			panic("c02: no seed event from Value.Pull")
+		}
+		cancel()
 	}
-	return res
+	return vals, stamps
 }
 
-func showContents(c map[int]int64) string {
+func sortedIDs[V any](c map[int]V) []int {
 	var ids []int
 	for id := range c {
 		ids = append(ids, id)
 	}
 	sort.Ints(ids)
+	return ids
+}
+
+func showContents(c map[int]P) string {
 	var parts []string
-	for _, id := range ids {
-		parts = append(parts, fmt.Sprintf("%d:%d", id, c[id]))
+	for _, id := range sortedIDs(c) {
+		parts = append(parts, fmt.Sprintf("%d:%s", id, c[id]))
+	}
+	return strings.Join(parts, ",")
+}
+
+func showStamped(c map[int]P, st map[int]int64) string {
+	var parts []string
+	for _, id := range sortedIDs(c) {
+		parts = append(parts, fmt.Sprintf("%d:%s@%d", id, c[id], st[id]))
 	}
 	return strings.Join(parts, ",")
 }
@@ -261,46 +509,70 @@ func showContents(c map[int]int64) string {
 // ---------------------------------------------------------------------------------------------
 // the sequential specification, written independently of the Lean model: a plain map, one call at a time
 
-func (o Op) checkOK(v int64, present bool) bool {
-	if o.Check == "" || o.Check == "n" {
-		return true
+// written is the message after the write: the fields the mask selects come from the written message
+// (which an interceptor derives from the old one), the others keep their old value.
+func (o Op) written(old P) P {
+	v := old
+	switch o.F[0] {
+	case 's':
+		_ = v.UnmarshalText([]byte(o.F[1:]))
+	case 'a':
+		k, _ := strconv.ParseInt(o.F[1:], 10, 64)
+		v.A += k
+	case 'b':
+		k, _ := strconv.ParseInt(o.F[1:], 10, 64)
+		v.B += k
 	}
-	k, _ := strconv.ParseInt(o.Check[2:], 10, 64)
-	is := present && v == k
-	return is == strings.HasPrefix(o.Check, "eq")
+	switch o.Mask {
+	case "a":
+		return P{v.A, old.B}
+	case "b":
+		return P{old.A, v.B}
+	}
+	return v
 }
 
 // specApply returns the result the call must report when executed alone on st, and mutates st.
-func specApply(st map[int]int64, o Op) string {
+// genID: the id the collection reported for a generate-id call (-1 if none was reported).
+func specApply(st map[int]P, o Op, genID int) string {
 	id := o.target()
+	if o.Gen {
+		// whatever the generator does, the id it hands out must be free at that instant
+		if genID < 0 {
+			return "err:Aborted" // generation gave up: allowed only when it cannot find a free id (judged separately)
+		}
+		id = genID
+	}
 	cur, present := st[id]
 	switch o.K {
 	case "u", "v":
 		old, oldPresent := cur, present
 		if o.K == "u" {
-			if present && o.EA {
+			if present && (o.EA || o.Gen) {
+				if o.Gen {
+					return "invalid: generated id already in use"
+				}
 				return "err:AlreadyExists"
 			}
 			if !present {
 				if !o.CIA {
 					return "err:NotFound"
 				}
-				old, oldPresent = 0, true // a fresh empty message
+				old, oldPresent = P{}, true // a fresh empty message
 			}
 		}
 		if o.Expect != nil && !(oldPresent && old == *o.Expect) {
 			return "err:FailedPrecondition"
 		}
-		if !o.checkOK(old, oldPresent) {
+		if !checkOK(o.Check, old, oldPresent) {
 			return "err:OutOfRange"
 		}
-		k, _ := strconv.ParseInt(o.F[1:], 10, 64)
-		nv := k
-		if o.F[0] == 'a' {
-			nv = old + k
-		}
+		nv := o.written(old)
 		st[id] = nv
-		return "ok:" + strconv.FormatInt(nv, 10)
+		if o.Gen {
+			return "ok:" + nv.String() + "#" + strconv.Itoa(id)
+		}
+		return "ok:" + nv.String()
 	case "d":
 		if !present {
 			if o.AM {
@@ -308,25 +580,26 @@ func specApply(st map[int]int64, o Op) string {
 			}
 			return "err:NotFound"
 		}
-		if !o.checkOK(cur, true) {
+		if !checkOK(o.Check, cur, true) {
 			return "err:OutOfRange"
 		}
 		if o.Expect != nil && cur != *o.Expect {
 			return "err:FailedPrecondition"
 		}
 		delete(st, id)
-		return "ok:" + strconv.FormatInt(cur, 10)
+		return "ok:" + cur.String()
 	}
 	return "?"
 }
 
 // HOp is one call in a concurrent history: [Inv, Resp] in some global order of instants.
 type HOp struct {
-	T, N int
-	Op   Op
-	Inv  int64
-	Resp int64
-	Res  string
+	T, N  int
+	Op    Op
+	Inv   int64
+	Resp  int64
+	Res   string
+	GenID int // id reported through WithIDCallback (-1: none)
 }
 
 func lostRace(res string) bool { return res == "err:Aborted" || res == "err:Unavailable" }
@@ -334,7 +607,7 @@ func lostRace(res string) bool { return res == "err:Aborted" || res == "err:Unav
 // linearizable searches for a one-at-a-time order of the calls that took part (lost-race results must
 // have no effect, so they are left out) which respects real time (a.Resp < b.Inv ⇒ a before b),
 // reproduces every result on the sequential specification and ends in the observed contents.
-func linearizable(init map[int]int64, hist []HOp, final map[int]int64) (bool, []int) {
+func linearizable(init map[int]P, hist []HOp, final map[int]P) (bool, []int) {
 	var ops []HOp
 	for _, h := range hist {
 		if !lostRace(h.Res) {
@@ -347,8 +620,8 @@ func linearizable(init map[int]int64, hist []HOp, final map[int]int64) (bool, []
 	}
 	seen := map[string]bool{}
 	var order []int
-	var rec func(mask uint32, st map[int]int64) bool
-	rec = func(mask uint32, st map[int]int64) bool {
+	var rec func(mask uint32, st map[int]P) bool
+	rec = func(mask uint32, st map[int]P) bool {
 		if mask == uint32(1)<<n-1 {
 			return showContents(st) == showContents(final)
 		}
@@ -371,11 +644,11 @@ func linearizable(init map[int]int64, hist []HOp, final map[int]int64) (bool, []
 			if !minimal {
 				continue
 			}
-			st2 := make(map[int]int64, len(st))
+			st2 := make(map[int]P, len(st))
 			for k, v := range st {
 				st2[k] = v
 			}
-			if specApply(st2, ops[i].Op) != ops[i].Res {
+			if specApply(st2, ops[i].Op, ops[i].GenID) != ops[i].Res {
 				continue
 			}
 			order = append(order, i)
@@ -386,7 +659,7 @@ func linearizable(init map[int]int64, hist []HOp, final map[int]int64) (bool, []
 		}
 		return false
 	}
-	st := map[int]int64{}
+	st := map[int]P{}
 	for k, v := range init {
 		st[k] = v
 	}
@@ -394,8 +667,8 @@ func linearizable(init map[int]int64, hist []HOp, final map[int]int64) (bool, []
 	return ok, order
 }
 
-func (sc Scenario) initMap() map[int]int64 {
-	m := map[int]int64{}
+func (sc Scenario) initMap() map[int]P {
+	m := map[int]P{}
 	for _, id := range sc.initIDs() {
 		m[id] = sc.Init[strconv.Itoa(id)]
 	}
